@@ -13,6 +13,9 @@ C["C14"] = dict(
 C["C15"] = dict(
   text="Lean 4 theorems for every content size (unbounded Nat, so all 2^64): picked length is a power of two within [16 KiB, 16 MiB], monotone, equals clamp(2^(k/2+4)) at every 2^k (three regimes + the 37 published rows by kernel evaluation), passes the create lints under the empty allow set, and is insensitive to the exponent function above 2^40 (float inexactness is harmless). Constants extracted from the source each run. Correspondence: hook on every 2^k-1,2^k,2^k+1, float edges and random sizes; printed table vs model vs book; sparse files through create.",
   note="Trusted: Lean kernel; f64 log2/ceil of libm are modelled by the exact clog2 (validated on all power-of-two neighbourhoods and random sizes each run; monotonicity of libm log2 between sample points is assumed).")
+C["C16"] = dict(
+  text="Lean 4 theorems about an exact-integer model of bytes.rs (no floats): every decimal integer with every unit spelling and letter case denotes exactly n*mult when the product fits 53 bits (parse_integer_exact, via exactness of round-to-53-bits on small integers); unknown suffixes, dot-only and two-dot numbers are rejected; the printed unit is the largest not exceeding the double-rounded value; the two-decimal value is within half a hundredth of the unit; `byte` iff 1; at most two decimals without trailing zeros. Suffix table and display constants are extracted from the source each run. Partial: the truncation law for decimal fractions is decided by the exact model + harness spec on generated inputs, not yet by an unbounded theorem.",
+  note="Trusted: Lean kernel; IEEE-754/Rust float parsing, `as` casts and {:.2} formatting are modelled by exact integer arithmetic and validated by the correspondence check (rounding ties at every unit, unit boundaries, random u64).")
 
 
 def main():
